@@ -50,6 +50,14 @@ def run(ctx, which=WHICH, oracle=None):
         tree = None
         ctx.disagree("act.translator", {"error": repr(e)}, "readable tree", "exception")
     cap = ctx.n(2500, 6000)
+    if which == "C08":
+        # dumped and resumed runs are further histories: a candidate that was trashed before the dump must stay trashed afterwards
+        for tr in runcommon.resumed_traces(ctx):
+            if tr["legs"]:
+                stats = {}
+                oracle(tr, ctx.fail, stats)
+                runcommon.record_trace_stats(ctx, tr, stats)
+                ctx.count("resumed-traces")
     for tr in trs:
         meta = tr["meta"]
         if not tr["legs"]:
